@@ -36,3 +36,27 @@ contract("uxarray.io._ugrid._encode_ugrid", props=["C07", "C08", "C19"],
          # frames: nothing owned by the caller (the Grid's dataset) or by a module (conventions.ugrid templates) is stored into
          options={"frames": True},
          raises=[("Exception", "False", "only_if")])
+
+
+# ---- Grid.to_xarray / Grid.encode_as (C07): each format name goes to its own encoder, fed with THIS grid's dataset / tables ------------
+_GG = "uxarray.grid.grid.Grid."
+_ENC = {"ugrid": "uxarray.io._ugrid._encode_ugrid", "exodus": "uxarray.io._exodus._encode_exodus", "scrip": "uxarray.io._scrip._encode_scrip"}
+_ACCS = [_GG + a for a in ("face_node_connectivity", "node_lon", "node_lat", "face_areas")]
+
+
+def _enc_term(fmt):
+    if fmt == "scrip":
+        return (f"summary('{_ENC['scrip']}', " + ", ".join(f"summary('{_GG}{a}', self)" for a in ("face_node_connectivity", "node_lon", "node_lat",
+                                                                                                     "face_areas")) + ")")
+    return f"summary('{_ENC[fmt]}', self._ds" + (", None" if fmt == "exodus" else "") + ")"
+
+
+for _api, _names, _exc in (("to_xarray", {"ugrid": "ugrid", "exodus": "exodus", "scrip": "scrip", "bogus": None}, "ValueError"),
+                           ("encode_as", {"UGRID": "ugrid", "Exodus": "exodus", "SCRIP": "scrip", "bogus": None}, "RuntimeError")):
+    for _nm, _fmt in _names.items():
+        contract(_GG + _api, props=["C07"], variant=_nm,
+                 params={"self": "obj('Grid')", ("grid_format" if _api == "to_xarray" else "grid_type"): repr(_nm)},
+                 returns="opaque",
+                 ensures=[f"same(result, {_enc_term(_fmt)})"] if _fmt else [],
+                 options={"abstract": True, "summaries": list(_ENC.values()) + _ACCS},
+                 raises=[(_exc, str(_fmt is None), "iff")])
